@@ -45,9 +45,12 @@ def cases(tier, seed):
         out.append(dict(kind="ode", n=n, b=1, box=box, method="grid", seed=sd + n, draws=1))
         if not quick or n % 2:
             out.append(dict(kind="statio", dim=1, n=n, b=1, nb=2, bb=2, box=BOXES[(n + 1) % 4], method="grid", seed=sd + n, draws=1))
-        if not quick or n % 2:
-            out.append(dict(kind="nonstatio", dim=1, n=3, b=1, nb=None, bb=None, nt=n, bt=1, box=box, tbox=BOXES[(n + 1) % 4],
+        # the time grid: float spacing, every interval for every count (a count error may need a particular (tmin, tmax, nt))
+        for tb in (BOXES if (not quick or n >= 32) else [BOXES[(n + 1) % 4]]):
+            out.append(dict(kind="nonstatio", dim=1, n=3, b=1, nb=None, bb=None, nt=n, bt=1, box=box, tbox=tb,
                             method="grid", seed=sd + n, draws=1))
+        for tb in (BOXES if (not quick or n >= 32) else []):
+            out.append(dict(kind="ode", n=n, b=1, box=tb, method="grid", seed=sd + n, draws=1))
     for r in range(1, (8 if quick else 12)):
         for bi, box in enumerate(BOXES):
             if quick and (r + bi) % 2:
